@@ -148,7 +148,11 @@ type RowCache struct {
 	cache      map[string]model.Model
 	indexSpecs []indexSpec
 	indexes    columnToValue
-	mutex      sync.RWMutex
+	// set when a write without index checks made a second row take a value of
+	// a schema index: the index, which remembers one row per value, then no
+	// longer finds every row holding it and is not used for look-ups
+	schemaIndexStale bool
+	mutex            sync.RWMutex
 }
 
 // rowByUUID returns one model from the cache by UUID. Caller must hold the row
@@ -209,6 +213,26 @@ func (r *RowCache) rowsByModels(models []model.Model, useClientIndexes bool) (ma
 			}
 			val, err := valueFromIndex(info, indexSpec.columns)
 			if err != nil {
+				continue
+			}
+			if indexSpec.isSchemaIndex() && r.schemaIndexStale {
+				// look at the rows themselves
+				found := false
+				for uuid, row := range r.cache {
+					rowInfo, err := r.dbModel.NewModelInfo(row)
+					if err != nil {
+						continue
+					}
+					if rowVal, err := valueFromIndex(rowInfo, indexSpec.columns); err == nil && rowVal == val {
+						found = true
+						if _, ok := results[uuid]; !ok {
+							results[uuid] = r.rowByUUID(uuid)
+						}
+					}
+				}
+				if found {
+					break
+				}
 				continue
 			}
 			vals := r.indexes[indexSpec.index]
@@ -283,8 +307,11 @@ func (r *RowCache) Create(uuid string, m model.Model, checkIndexes bool) error {
 
 		vals := r.indexes[index]
 		existing := vals[val]
-		if checkIndexes && indexSpec.isSchemaIndex() && !existing.empty() && !existing.equals(uuidset) {
-			return NewIndexExistsError(r.name, val, string(index), uuid, existing.list())
+		if indexSpec.isSchemaIndex() && !existing.empty() && !existing.equals(uuidset) {
+			if checkIndexes {
+				return NewIndexExistsError(r.name, val, string(index), uuid, existing.list())
+			}
+			r.schemaIndexStale = true
 		}
 
 		addIndexes[index][val] = uuidset
@@ -349,14 +376,18 @@ func (r *RowCache) Update(uuid string, m model.Model, checkIndexes bool) (model.
 		// check that there are no conflicts
 		vals := r.indexes[index]
 		existing := vals[newVal]
-		if checkIndexes && indexSpec.isSchemaIndex() && !existing.empty() && !existing.equals(uuidset) {
-			errs = append(errs, NewIndexExistsError(
-				r.name,
-				newVal,
-				string(index),
-				uuid,
-				existing.list(),
-			))
+		if indexSpec.isSchemaIndex() && !existing.empty() && !existing.equals(uuidset) {
+			if checkIndexes {
+				errs = append(errs, NewIndexExistsError(
+					r.name,
+					newVal,
+					string(index),
+					uuid,
+					existing.list(),
+				))
+			} else {
+				r.schemaIndexStale = true
+			}
 		}
 
 		addIndexes[index][newVal] = uuidset
@@ -425,6 +456,40 @@ func (r *RowCache) IndexExists(row model.Model) error {
 		}
 	}
 	return nil
+}
+
+// refreshSchemaIndexes rebuilds the schema indexes from the rows after
+// writes without index checks made them stale. They stay marked stale while
+// two rows hold the same value.
+func (r *RowCache) refreshSchemaIndexes() {
+	r.mutex.Lock()
+	defer r.mutex.Unlock()
+	if !r.schemaIndexStale {
+		return
+	}
+	stale := false
+	for _, indexSpec := range r.indexSpecs {
+		if !indexSpec.isSchemaIndex() {
+			break
+		}
+		fresh := make(valueToUUIDs, len(r.cache))
+		for uuid, row := range r.cache {
+			info, err := r.dbModel.NewModelInfo(row)
+			if err != nil {
+				continue
+			}
+			val, err := valueFromIndex(info, indexSpec.columns)
+			if err != nil {
+				continue
+			}
+			if _, taken := fresh[val]; taken {
+				stale = true
+			}
+			fresh[val] = newUUIDSet(uuid)
+		}
+		r.indexes[indexSpec.index] = fresh
+	}
+	r.schemaIndexStale = stale
 }
 
 // DuplicateIndex returns an ErrIndexExists if two rows of the cache hold the
@@ -613,6 +678,10 @@ func (r *RowCache) uuidsByConditionsAsIndexes(conditions []ovsdb.Condition, nati
 		}
 		for _, spec := range r.indexSpecs {
 			if !indexMatchesConditions(spec, conditions) {
+				continue
+			}
+			if spec.isSchemaIndex() && r.schemaIndexStale {
+				// evaluate the conditions on the rows instead
 				continue
 			}
 			// if we have an index for those conditions, calculate the index
@@ -1254,6 +1323,9 @@ func (t *TableCache) ApplyCacheUpdate(update cacheUpdate) error {
 		if err != nil {
 			return err
 		}
+		// the batch is applied: values handed over from row to row have
+		// found their owner, the schema indexes can be trusted again
+		tCache.refreshSchemaIndexes()
 	}
 	return nil
 }
